@@ -209,65 +209,54 @@ def rule_X7(ctx) -> None:
 
 
 def rule_X8(ctx) -> None:
-    """class names and reference names of nested types agree: traverse() renames a nested type to <prefix>_<name> and hands
-    exactly that new name down as the prefix of its own nested types (symbolic evaluation of the straight-line renaming code)"""
+    """class names and reference names of nested types agree: traverse() renames a nested type and hands exactly that new
+    name down as the prefix of its own nested types - to the recursive call, or into the work list of an iterative walk
+    (path semantics of the renaming code; the form of the new name itself is P13's business)"""
     parser = ctx.repo.mod("src/betterproto/plugin/parser.py")
     tr = parser.func("traverse")
     ctx.analysed("traverse")
-    inner = next((n for n in ast.walk(tr) if isinstance(n, ast.FunctionDef) and n is not tr), None)
-    loop = next((n for n in ast.walk(inner or tr) if isinstance(n, ast.For)), None)
-    if inner is None or loop is None or not isinstance(loop.target, ast.Tuple):
+    fns = [n for n in ast.walk(tr) if isinstance(n, (ast.FunctionDef, ast.AsyncFunctionDef))]
+    n_hand = 0
+    bad = None
+    n_store = 0
+    for f in fns:
+        try:
+            paths = Interp(parser, fork_while=True, heap=True).run(f)     # a read of item.name after the renaming sees the new name
+        except AnalysisError:
+            continue
+        ctx.count(len(paths))
+        inner_names = {x.name for x in fns}
+        for p in paths:
+            new_name = None
+            for e in p.events:
+                if e.kind == "store" and e.data[0][0] == "a" and e.data[0][2] == "name":
+                    new_name = e.data[1]
+                    n_store += 1
+                if e.kind != "call" or new_name is None:
+                    continue
+                c = e.data
+                handed = None
+                fname = dotted(c[1])
+                if (c[1][0] == "opaque" or fname in inner_names) and len(c[2]) >= 3:
+                    handed = c[2][2]                      # _traverse(path, items, prefix)
+                elif (c[1][0] == "opaque" or fname in inner_names) and dict(c[3]).get("prefix") is not None:
+                    handed = dict(c[3])["prefix"]
+                elif c[1][0] == "a" and c[1][2] in ("append", "appendleft", "insert") and c[2] and c[2][-1][0] == "tuple" and len(c[2][-1][1]) == 3:
+                    handed = c[2][-1][1][2]               # pending.append((items, path, prefix))
+                if handed is None:
+                    continue
+                n_hand += 1
+                if handed != new_name:
+                    bad = bad or (e, handed, new_name)
+    if not n_store or not n_hand:
         ctx.inconclusive("X8", "traverse:nested-prefix", "renaming loop not recognised", parser.loc(tr))
-        return
-    item = loop.target.elts[1].id if isinstance(loop.target.elts[1], ast.Name) else None
-    prefix_param = inner.args.args[2].arg if len(inner.args.args) >= 3 else "prefix"
-    # symbolic strings: lists of parts, each a literal or one of the symbols P (incoming prefix) / N (the proto name)
-    env = {f"{item}.name": ["N"], prefix_param: ["P"]}
-
-    def ev(e: ast.AST):
-        if isinstance(e, ast.JoinedStr):
-            out = []
-            for v in e.values:
-                if isinstance(v, ast.Constant):
-                    out.append(repr(v.value))
-                else:
-                    r = ev(v.value)
-                    if r is None:
-                        return None
-                    out += r
-            return out
-        if isinstance(e, ast.Constant) and isinstance(e.value, str):
-            return [repr(e.value)]
-        if isinstance(e, (ast.Name, ast.Attribute)):
-            return list(env[ast.unparse(e)]) if ast.unparse(e) in env else None
-        if isinstance(e, ast.BinOp) and isinstance(e.op, ast.Add):
-            a, b = ev(e.left), ev(e.right)
-            return a + b if a is not None and b is not None else None
-        return None
-
-    handed = []
-    for st in loop.body:
-        if isinstance(st, ast.Assign):
-            r = ev(st.value)
-            for t in st.targets:
-                env[ast.unparse(t)] = r if r is not None else ["?"]
-        for c in [c for c in ast.walk(st) if isinstance(c, ast.Call) and isinstance(c.func, ast.Name) and c.func.id == inner.name]:
-            arg = c.args[2] if len(c.args) >= 3 else next((k.value for k in c.keywords if k.arg == prefix_param), None)
-            handed.append((c, ev(arg) if arg is not None else None))
-    new_name = env.get(f"{item}.name")
-    if not handed or new_name is None:
-        ctx.inconclusive("X8", "traverse:nested-prefix", "recursive calls not recognised", parser.loc(tr))
-        return
-    bad = [(c, h) for c, h in handed if h != new_name]
-    if new_name != ["P", "'_'", "N"]:
-        ctx.inconclusive("X8", "traverse:nested-prefix", f"renaming is not <prefix>_<name>: {new_name}", parser.loc(tr))
     elif bad:
-        c, h = bad[0]
-        ctx.refuted("X8", "traverse:nested-prefix", "".join(h or ["?"]), parser.loc(c),
-                    f"a nested type is renamed to {''.join(new_name)} but its own nested types are given the prefix {''.join(h or ['?'])}: classes of types nested two or more levels deep are "
+        e, h, new_name = bad
+        ctx.refuted("X8", "traverse:nested-prefix", show(h)[:60], f"{parser.rel}:{e.line}",
+                    f"a nested type is renamed to {show(new_name)} but its own nested types are given the prefix {show(h)}: classes of types nested two or more levels deep are "
                     "emitted under a name (OuterOuterMidLeaf) that differs from the one references to them are compiled to (OuterMidLeaf)", "message Outer { message Mid { message Leaf {} } }")
     else:
-        ctx.proved("X8", "traverse:nested-prefix", parser.loc(tr), f"{len(handed)} recursive calls hand down {''.join(new_name)}")
+        ctx.proved("X8", "traverse:nested-prefix", parser.loc(tr), f"{n_hand} hand-downs of the new name")
 
 
 def run(ctx) -> None:
